@@ -88,7 +88,7 @@ def sc_tail_concrete(B, C, D, N, setting):
     m.means = B.np.array(mu)
     m.variance_thresholds = 1e-5
     m.variances = B.np.array(v)
-    P = dict(C=C, D=D, w=w, mu=mu, v=v)
+    P = dict(C=C, D=D, w=w, mu=mu, v=[[max(1e-5, x) for x in row] for row in v])
     X = B.arr("x", (N, D))
     o = Outcome()
     ll = m.log_likelihood(X)
